@@ -32,6 +32,9 @@ WITNESS = {
     "S2": [["LsOpen", "new"], ["AppWrite", 1], ["LsSyncAndWait"], ["AppWrite", 2], ["LsSyncAndWait"], ["AppWrite", 3], ["LsSyncAndWait"], ["Compact", 1],
            ["AppWrite", 4], ["LsSyncAndWait"], ["AppWrite", 5], ["LsSyncAndWait"], ["AppWrite", 6], ["LsSync"], ["LocalLoss", "newest"], ["LocalLoss", "newest"],
            ["L0Retention", 9], ["AppWrite", 1], ["LsSyncAndWait"], ["AppWrite", 2], ["LsSyncAndWait"], ["LsClose"]],
+    # S3: a snapshot written ahead of the level-0 uploads, then the local state is reset while running (what auto-recover does)
+    "S3": [["LsOpen", "new"], ["AppWrite", 1], ["LsSyncAndWait"], ["AppWrite", 2], ["LsSync"], ["Snapshot"], ["LsReset"], ["AppWrite", 3], ["LsSyncAndWait"],
+           ["AppWrite", 4], ["LsSyncAndWait"], ["LsClose"]],
     "F3": [["LsOpen", "new"]] + [["AppGrow", 1], ["LsSyncAndWait"]] * 5 + [["LsReset"], ["AppWrite", 3], ["LsSyncAndWait"]],
 }
 
@@ -45,21 +48,22 @@ PLANS = {
         dump=("Dump_Core.cfg", 250, 2500),
         random=dict(n=80, n_thorough=800, length=28, with_down=False, with_state_loss=False),
         invariants=["C01_RestoreEqualsSource", "C01_RestoreIntegrity", "N_ReadLockWhileOpen"],
-        witnesses=["F1", "F2", "F3", "G1", "S1", "Q1", "Q2"],
+        witnesses=["F1", "F2", "F3", "G1", "S1", "Q1", "Q2", "S3"],
         nontrivial="distinct schedule with at least one acknowledgement after application writes (restore compared with the source)",
     ),
     "C04": dict(
         mc=[("MC_Core_q.cfg", "code as it is (stop/start of the same object, new process, crash, app activity incl. all checkpoint modes while down); versions 2"),
-            ("LocalChain", "MC_LocalChain_asis.cfg", "reconciliation of the local chain with the replica's (start, stop, sync, upload, loss of local files while running or down, reset, cache invalidation): OneChain, AckMeansStored"),
+            ("LocalChain", "MC_LocalChain_asis.cfg", "reconciliation of the local chain with the replica's (start, stop, sync, upload, snapshot, loss of local files while running or down, reset, cache invalidation): OneChain, AckMeansStored, AckMeansRestorable, SnapshotOnChain"),
             ("LocalChain", "MC_LocalChain_zeroOnly.cfg", "NEGATIVE CONTROL: replica re-check only at position zero (S2, before its fix)"),
-            ("LocalChain", "MC_LocalChain_initOnly.cfg", "NEGATIVE CONTROL: replica re-check only in init (F3, before its fix)")],
+            ("LocalChain", "MC_LocalChain_initOnly.cfg", "NEGATIVE CONTROL: replica re-check only in init (F3, before its fix)"),
+            ("LocalChain", "MC_LocalChain_snapAhead.cfg", "NEGATIVE CONTROL: snapshot written ahead of the level-0 uploads (S3, before its fix)")],
         mc_thorough=[("MC_Core_asis.cfg", "versions 3"), ("MC_Core_asis4.cfg", "versions 4"), ("MC_Core_down2.cfg", "2 downs")],
         sim=[("Sim_Core_down.cfg", 250, 1200, 45)],
         dump=None,
         random=dict(n=200, n_thorough=1200, length=34, with_down=True, with_state_loss=True),
         directed=True,
         invariants=["C04_AckMeansReplicaAtLocalPos", "C04_ResnapshotAfterLoss", "C01_RestoreEqualsSource", "N_ReadLockWhileOpen"],
-        witnesses=["F1", "F2", "F3", "S1", "Q1", "Q2", "S2"],
+        witnesses=["F1", "F2", "F3", "S1", "Q1", "Q2", "S2", "S3"],
         nontrivial="distinct schedule in which litestream was stopped/reset/lost state and application activity happened before the next acknowledgement",
     ),
     "C02": dict(
